@@ -161,7 +161,9 @@ fn values() -> Vec<Value> {
     ]
 }
 
-const C09_KEYS: &[&str] = &["a", "a/b", "a//b", "ä/β", "t", "v"];
+/// (the last three: a first segment that merely starts with `$SYS`, and `$SYS` further down - user
+/// keys like any other, next to the `$SYS` subtree that export strips)
+const C09_KEYS: &[&str] = &["a", "a/b", "a//b", "ä/β", "t", "v", "$SYSx", "$SYSx/y", "a/$SYS/b"];
 
 #[derive(Clone, Debug)]
 struct Case {
@@ -401,14 +403,14 @@ pub fn run_c09(tier: &str) -> i32 {
         for i in 0..C09_KEYS.len() {
             for j in i + 1..C09_KEYS.len() {
                 v.push(vec![C09_KEYS[i], C09_KEYS[j]]);
-                for l in j + 1..C09_KEYS.len() {
+                for l in j + 1..C09_KEYS.len().min(6) {
                     v.push(vec![C09_KEYS[i], C09_KEYS[j], C09_KEYS[l]]);
                 }
             }
         }
         v
     } else {
-        vec![vec!["a", "a/b"], vec!["a", "t"], vec!["a/b", "a//b", "v"], vec!["ä/β", "t", "v"]]
+        vec![vec!["a", "a/b"], vec!["a", "t"], vec!["a/b", "a//b", "v"], vec!["ä/β", "t", "v"], vec!["$SYSx/y", "a/$SYS/b"]]
     };
     for ks in &key_sets {
         let n = ks.len();
@@ -459,7 +461,7 @@ pub fn run_c09(tier: &str) -> i32 {
     ev.set("evaluations", json!(cases.len()));
     ev.set("distinct_nontrivial", json!(nontrivial.len()));
     ev.set("exhaustive", json!(true));
-    ev.set("rule", json!("store contents (every single entry over 6 key shapes x 10 JSON values x {plain, CAS at version 1, 2, 2^53+1, u64::MAX}; pairs and triples over a reduced value set) x 3 registration sets x on-disk layouts v3/v2/v1 x toggle present/absent; built through the real API, flushed with the real synchronous(), loaded through the real load() fall-back chain; distinct = distinct (values+kinds, registration set, layout, toggle state); all are non-trivial (every case stores at least one value)"));
+    ev.set("rule", json!("store contents (every single entry over 9 key shapes (incl. a first segment that only starts with $SYS and $SYS as a later segment) x 10 JSON values x {plain, CAS at version 1, 2, 2^53+1, u64::MAX}; pairs and triples over a reduced value set) x 3 registration sets x on-disk layouts v3/v2/v1 x toggle present/absent; built through the real API, flushed with the real synchronous(), loaded through the real load() fall-back chain; distinct = distinct (values+kinds, registration set, layout, toggle state); all are non-trivial (every case stores at least one value)"));
     ev.push_sample(json!({"entries": [["a", {"Cas": [1, 2]}, null]], "registration_set": 1, "layout": "v2", "flushes_before_load": 2}));
     ev.push_sample(json!({"entries": [["ä/β", 1e308, u64::MAX]], "registration_set": 0, "layout": "v3", "flushes_before_load": 1}));
     ev.assume("the reference takes the content at the flush from the instance itself (pget # cross-checked with the stored tree) and applies grave goods / last wills with the documented relation");
